@@ -628,6 +628,34 @@ func inRange(start, end, val []byte, isEnd bool) bool {
 	return bytes.Compare(start, val) <= 0 && bytes.Compare(end, val) >= 0
 }
 
+// maxStartKey returns the greater range start, nil means no start boundary
+func maxStartKey(l, r []byte) []byte {
+	if l == nil {
+		return r
+	}
+	if r == nil {
+		return l
+	}
+	if bytes.Compare(l, r) >= 0 {
+		return l
+	}
+	return r
+}
+
+// minEndKey returns the lower range end, nil means no end boundary
+func minEndKey(l, r []byte) []byte {
+	if l == nil {
+		return r
+	}
+	if r == nil {
+		return l
+	}
+	if bytes.Compare(l, r) <= 0 {
+		return l
+	}
+	return r
+}
+
 func (o *FilterOptimizer) intersectionRange(l, r *ScanType) *ScanType {
 	if len(l.keys) != 2 || len(r.keys) != 2 {
 		return &ScanType{FULL, nil}
@@ -658,23 +686,11 @@ func (o *FilterOptimizer) intersectionRange(l, r *ScanType) *ScanType {
 		return &ScanType{FULL, nil}
 	}
 
-	if inRange(lstart, lend, rstart, false) && !inRange(lstart, lend, rend, true) {
-		// | LS | RS | LE | RE |
-		nstart = rstart
-		nend = lend
-	} else if inRange(rstart, rend, lstart, false) && !inRange(rstart, rend, lend, true) {
-		// | RS | LS | RE | LE |
-		nstart = lstart
-		nend = rend
-	} else if inRange(lstart, lend, rstart, false) && inRange(lstart, lend, rend, true) {
-		// | LS | RS | RE | LE |
-		nstart = rstart
-		nend = rend
-	} else if inRange(rstart, rend, lstart, false) && inRange(rstart, rend, lend, true) {
-		// | RS | LS | LE | RE |
-		nstart = lstart
-		nend = lend
-	} else if !inRange(lstart, lend, rstart, false) && !inRange(lstart, lend, rend, true) {
+	// The overlap starts at the greater start and ends at the lower end,
+	// nil means no boundary at that side
+	nstart = maxStartKey(lstart, rstart)
+	nend = minEndKey(lend, rend)
+	if nstart != nil && nend != nil && bytes.Compare(nstart, nend) > 0 {
 		// | LS | LE | RS | RE |
 		// | RS | RE | LS | LE |
 		// No result just return EMPTY
@@ -686,7 +702,7 @@ func (o *FilterOptimizer) intersectionRange(l, r *ScanType) *ScanType {
 	}
 
 	// start == end just use MGET
-	if bytes.Compare(nstart, nend) == 0 {
+	if nstart != nil && nend != nil && bytes.Compare(nstart, nend) == 0 {
 		return &ScanType{MGET, [][]byte{nstart}}
 	}
 
@@ -723,31 +739,18 @@ func (o *FilterOptimizer) unionRange(l, r *ScanType) *ScanType {
 		return &ScanType{FULL, nil}
 	}
 
-	if inRange(lstart, lend, rstart, false) && !inRange(lstart, lend, rend, true) {
-		// | LS | RS | LE | RE |
+	// The covering range starts at the lower start and ends at the greater
+	// end, one side without boundary makes the result has no boundary too
+	if lstart != nil && rstart != nil {
 		nstart = lstart
-		nend = rend
-	} else if inRange(rstart, rend, lstart, false) && !inRange(rstart, rend, lend, true) {
-		// | RS | LS | RE | LE |
-		nstart = rstart
-		nend = lend
-	} else if inRange(lstart, lend, rstart, false) && inRange(lstart, lend, rend, true) {
-		// | LS | RS | RE | LE |
-		nstart = lstart
-		nend = lend
-	} else if inRange(rstart, rend, lstart, false) && inRange(rstart, rend, lend, true) {
-		// | RS | LS | LE | RE |
-		nstart = rstart
-		nend = rend
-	} else if !inRange(lstart, lend, rstart, false) && !inRange(lstart, lend, rend, true) {
-		if inRange(lstart, rstart, lend, true) {
-			// | LS | LE | RS | RE |
-			nstart = lstart
-			nend = rend
-		} else if inRange(rstart, lstart, rend, true) {
-			// | RS | RE | LS | LE |
+		if bytes.Compare(rstart, lstart) < 0 {
 			nstart = rstart
-			nend = lend
+		}
+	}
+	if lend != nil && rend != nil {
+		nend = lend
+		if bytes.Compare(rend, lend) > 0 {
+			nend = rend
 		}
 	}
 
@@ -756,7 +759,7 @@ func (o *FilterOptimizer) unionRange(l, r *ScanType) *ScanType {
 	}
 
 	// start == end just use MGET scan
-	if bytes.Compare(nstart, nend) == 0 {
+	if nstart != nil && nend != nil && bytes.Compare(nstart, nend) == 0 {
 		return &ScanType{MGET, [][]byte{nstart}}
 	}
 	return &ScanType{RANGE, [][]byte{nstart, nend}}
@@ -884,6 +887,10 @@ func (o *FilterOptimizer) unionPrefixAndRange(prefix, srange *ScanType) *ScanTyp
 		if rend != nil && bytes.HasPrefix(rend, pstart) {
 			// | RS | PS | RE | PE
 			// just use RANGE scan from range start to end
+			if rstart == nil {
+				// no boundary at both sides
+				return &ScanType{FULL, nil}
+			}
 			return &ScanType{RANGE, [][]byte{rstart, nil}}
 		} else if rend == nil {
 			// | RS | PS | PE | RE$ |
@@ -912,6 +919,10 @@ func (o *FilterOptimizer) unionPrefixAndRange(prefix, srange *ScanType) *ScanTyp
 		} else if rend != nil && bytes.Compare(rend, pstart) < 0 {
 			// | RS | RE | PS | PE |
 			// just scan RS -> nil
+			if rstart == nil {
+				// no boundary at both sides
+				return &ScanType{FULL, nil}
+			}
 			return &ScanType{RANGE, [][]byte{rstart, nil}}
 		}
 	}
